@@ -297,6 +297,15 @@ func (o *OracleC11) AfterBlock(c *Chain, b *BlockCtx) []*Violation {
 			}
 			taken[k].Add(taken[k], to.Amount.BigInt())
 		}
+		// the per-backer entries add up to the recorded total (whatever else is wrong with the shares)
+		sumTaken := new(big.Int)
+		for _, x := range taken {
+			sumTaken.Add(sumTaken, x)
+		}
+		if new(big.Int).Abs(new(big.Int).Sub(sumTaken, T)).Cmp(big.NewInt(int64(len(rec.TokenOrigins)+1))) > 0 {
+			out = append(out, o.v(b.H, "funding", "backer-records-ne-total", "dispute %d: the per-backer entries of the stake taken add up to %s, the recorded total is %s", id, sumTaken, T))
+			continue
+		}
 		var ks []string
 		for k := range contrib {
 			ks = append(ks, k)
